@@ -440,3 +440,26 @@ fire("c03-numpyro-logdet-sign", "C03", "flowjax/experimental/numpyro.py", "     
 fire("c06-hidden-randomness", "C06", D, "        return jr.normal(key, self.shape)", "        import random\n        return jr.normal(key, self.shape) + random.random()", "C06.det")
 fire("c01-planar-inverse-denominator", "C01", B + "planar.py", "        denominator = 1 + self.weight @ us", "        denominator = 1 - self.weight @ us", "C01.planar")
 fire("c01-planar-inverse-slope-from-y", "C01", B + "planar.py", "        relu_slope = jnp.where(numerator < 0, self.negative_slope, 1)", "        relu_slope = jnp.where(self.weight @ y < 0, self.negative_slope, 1)", "C01.planar")
+
+# ------------------------------------------------------------------------------ hand round 3 (support files)
+fire("c09-where-unwrap-swapped", "C09", "flowjax/wrappers.py",
+     "return jnp.where(self.cond, self.if_true, self.if_false)", "return jnp.where(self.cond, self.if_false, self.if_true)",
+     "C09.mask@unwrap")
+fire("c06-keys-shape-order", "C06", "flowjax/distributions.py",
+     "        key_shape = sample_shape + leading_cond_shape", "        key_shape = leading_cond_shape + sample_shape", "C06.keys")
+fire("c08-stack-shape-order", "C08", B + "concatenate.py",
+     "        self.shape = shapes[0][:axis] + (len(bijections),) + shapes[0][axis:]",
+     "        self.shape = (len(bijections),) + shapes[0][:axis] + shapes[0][axis:]", "C08.shape")
+fire("c06-vectorized-ildet-flag", "C06", B + "bijection.py",
+     "            self.bijection.inverse_and_log_det,\n            log_det=True,",
+     "            self.bijection.inverse_and_log_det,\n            log_det=False,", "C06.lift")
+silent("c15-benign-split-bound-other-rounding", "C15", "flowjax/train/train_utils.py",
+       "    n_train = num_samples - round(val_prop * num_samples)", "    n_train = round((1 - val_prop) * num_samples)")
+fire("c15-split-two-bounds", "C15", "flowjax/train/train_utils.py",
+     "    val_arrays = [arr[n_train:] for arr in arrays]",
+     "    val_arrays = [arr[-round(val_prop * num_samples):] for arr in arrays]", "C15.partition")
+silent("c10-benign-adapt-final-order", "C10", "flowjax/bisection_search.py",
+       "    lower = jnp.where(state.upper_fn_sign == 0, upper, lower)\n    upper = jnp.where(state.lower_fn_sign == 0, lower, upper)",
+       "    upper = jnp.where(state.lower_fn_sign == 0, lower, upper)\n    lower = jnp.where(state.upper_fn_sign == 0, upper, lower)")
+fire("c10-adapt-final-wrong-sign", "C10", "flowjax/bisection_search.py",
+     "    lower = jnp.where(state.upper_fn_sign == 0, upper, lower)", "    lower = jnp.where(state.lower_fn_sign == 0, upper, lower)", "C10.adapt")
